@@ -163,6 +163,7 @@ def run_server(kconfig, sdkconfig, sdkconfig_rename, default_version=MAX_PROTOCO
         before = kconfgen.get_json_values(config)
         before_ranges = get_ranges(config)
         before_visible = get_visible(config)
+        prev_sdkconfig = sdkconfig
 
         if "version" not in req:
             response = {
@@ -194,6 +195,9 @@ def run_server(kconfig, sdkconfig, sdkconfig_rename, default_version=MAX_PROTOCO
                     sdkconfig = req["save"]
 
             error = handle_request(config, req)
+            if any(e.startswith(("Failed to load from", "Failed to save to")) for e in error):
+                # A file that could not be loaded / saved does not become the file used by later null requests
+                sdkconfig = prev_sdkconfig
 
             after = kconfgen.get_json_values(config)
             after_ranges = get_ranges(config)
